@@ -121,6 +121,16 @@ def ev_from_data(ident: int, c: Case) -> dict:
     return e
 
 
+def _setrec(x, strict: bool = False):
+    """names of the explicitly set fields of an instance, through the documented instance.dict(set_only=True)"""
+    try:
+        return tuple(x.dict(set_only=True))
+    except Exception:  # noqa
+        if strict:
+            raise AttributeError('no record of set fields')
+        return ()
+
+
 def _is_pane_class(c: Case) -> bool:
     return c.T['k'] == 'cls' and isinstance(c.ty, type) and issubclass(c.ty, pane.PaneBase)
 
@@ -428,7 +438,7 @@ def snap(o, depth=0):
         return ('bytearray', id(o), bytes(o))
     if isinstance(o, pane.PaneBase):
         return (type(o).__name__, id(o), tuple((f.name, snap(getattr(o, f.name, None), depth + 1)) for f in type(o).__pane_info__.fields),
-                tuple(sorted(getattr(o, '__pane_set__', ()))))
+                tuple(sorted(_setrec(o))))
     if isinstance(o, float) and o != o:
         return ('nan',)
     return (type(o).__name__, o)
@@ -525,7 +535,7 @@ def native_copy(x):
         except Exception:  # noqa
             # a class whose hook derives some fields from the others (pane.types.Range): built from the
             # fields that were supplied, as a user would
-            given = getattr(x, '__pane_set__', ())
+            given = _setrec(x)
             try:
                 return type(x).make_unchecked(**{k: v for k, v in kw.items() if k in given})
             except Exception:  # noqa
@@ -1007,7 +1017,7 @@ def ev_created(ident: int, c: Case) -> dict:
     if x is not None:
         _alive.append(x)
         try:
-            supplied = set(getattr(x, '__pane_set__'))
+            supplied = set(_setrec(x, strict=True))
         except AttributeError:
             supplied = set()
         e['ids'], e['isfac'] = _observe_instance(x, cls, supplied)
